@@ -168,6 +168,27 @@ std::string enum_text(E e)
     return int_text(u, std::integral_constant<bool, std::is_signed<U>::value>{});
 }
 
+// value of a constant field as returned by the generated (static constexpr) accessor
+template<typename V>
+typename std::enable_if<std::is_enum<V>::value, std::string>::type const_text(V v)
+{
+    return enum_text(v);
+}
+template<typename V>
+typename std::enable_if<std::is_integral<V>::value, std::string>::type const_text(V v)
+{
+    if(std::is_same<V, char>::value)
+    {
+        return std::to_string(static_cast<unsigned>(static_cast<unsigned char>(v)));
+    }
+    return int_text(v, std::integral_constant<bool, std::is_signed<V>::value>{});
+}
+template<typename V>
+void put_const(std::ostream& o, const char* path, V v)
+{
+    o << "#const " << path << " " << const_text(v) << "\n";
+}
+
 // ------------------------------------------------------------ optional members
 #define C18_OPTIONAL_FN(NAME, EXPR)                                              \
     template<typename T, typename = void>                                        \
